@@ -43,13 +43,16 @@ CHECKS = {
     "C18": ("builder", "model_checking",
             "Every history runs under a scripted resolver with Rust type parameters and entry points decorrelated from the "
             "scripted shapes; the trace spec requires the recorded type info to be the scripted one and equal layouts for equal "
-            "shape histories.",
+            "shape histories.  The same histories are also run on OTHER HOSTS (the driver interpreted for i686 / mips / s390x / arm "
+            "targets: other pointer width, u64 / u128 alignment, endianness) and the trace spec requires the layout built there to be "
+            "the one built on this host; one entry point goes through a real pre-computed table with heap-held names.",
             "hyper-property over pairs of traces, decided with a memo variable in the trace specification; type tables: the "
             "registered / JSON-reloaded / doctored (foreign-target-like) table must answer exactly what was registered, typed and by name, "
             "and a layout built under the doctored table must use its answers (spec/TypeTable.tla, TypeTrace.tla)",
             TRACE_TECH % ("Builder.tla, TypeTable.tla", "BuilderTrace.tla, TypeTrace.tla"), "7 C18"),
     "C19": ("builder", "model_checking",
-            "Each history is built twice in one process and once in a separately started process; the trace spec requires equal "
+            "Each history is built twice in one process and once in a separately started process that meets the histories in the "
+            "opposite order (state surviving between histories then differs); the trace spec requires equal "
             "offsets and equal hashes of generate() / Display text for the runs of one group.",
             "hash equality stands for byte equality (64-bit FNV over the whole text, two fragment selections)",
             TRACE_TECH % ("Builder.tla", "BuilderTrace.tla"), "7 C19"),
